@@ -7,7 +7,19 @@ from copy import deepcopy
 from typing import TYPE_CHECKING
 
 # Third Party Imports
-from numpy import argwhere, array, ceil, concatenate, delete, dot, hstack, linspace, ones, outer
+from numpy import (
+    argmax,
+    argwhere,
+    array,
+    ceil,
+    concatenate,
+    delete,
+    dot,
+    hstack,
+    linspace,
+    ones,
+    outer,
+)
 from numpy import round as np_round
 from numpy import sum as np_sum
 from numpy import union1d, vstack, zeros
@@ -646,6 +658,10 @@ class AdaptiveFilter(KalmanFilter):
             prune_index (``ndarray``): indices of models to be pruned
             observations (``list``): :class:`.Observation` objects associated with the filter step
         """
+        if len(self.models) > 1 and len(prune_index) >= len(self.models):
+            # Don't prune everything: the most probable model survives
+            prune_index = delete(prune_index, argmax(self.model_weights[prune_index]))
+
         for index in reversed(prune_index):
             # Don't prune everything
             if len(self.models) != 1:
